@@ -187,7 +187,24 @@ PARAM_KIND_OVERRIDES = {
                                    '"pooling_size : int"; `curr_pooling_size /= 2` therefore rebinds a number')},
 }
 
-# ------------------------------------------------------------------ names of odak functions the checker rejects
-# (a call that cannot be resolved statically and whose name is listed here is treated as writing its arguments;
-#  harness/props/c20.py checks on every run that this set covers every rejected function)
-MUTATING_NAMES = set()
+# ------------------------------------------------------------------ functions the checker may reject
+# Documented in-place updates: the docstring (quoted; the harness checks on every run that the quote is still
+# in the source) says that the argument is updated.  A violation of C20 is only an UNdocumented change.
+DOCUMENTED_IN_PLACE = {
+    'odak.learn.tools.models.freeze': 'Model to be frozen, in other terms `requires_grad` to be set to `False`.',
+    'odak.learn.tools.models.unfreeze': 'Model to unfreeze, in other terms `requires_grad` to be set to `True`.',
+}
+# Scripts that run inside Blender's own interpreter (`import bpy`, `from libblend import *`): they cannot be imported
+# as part of odak, their arguments are Blender scene objects (not arrays / lists / dictionaries of the caller) and
+# changing those objects is their purpose (set_rotation, set_location, assign_color, ...).  They are still translated
+# and their verdicts are reported in the evidence; a rejection is not an alarm.
+OUT_OF_SCOPE_FILES = {
+    'odak/visualize/blender/libblend.py': 'Blender-side script: operates on bpy scene objects; not importable outside Blender',
+    'odak/visualize/blender/server.py': 'Blender-side script: module-level queue of commands is its documented purpose',
+}
+
+# a call that cannot be resolved statically and whose NAME is one of these is treated as writing its arguments
+# (harness/props/c20.py checks on every run that every rejected function's name is listed here)
+MUTATING_NAMES = {'freeze', 'unfreeze', 'set_rotation', 'set_location', 'reflect_ray', 'clear_material', 'assign_color',
+                  'assign_texture', 'create_plane_from_meshes', 'cylinder_between', 'run_in_main_thread', 'run', 'import_ply',
+                  'create_plane'}
